@@ -480,9 +480,15 @@ class Evaluator:
         raise NotComparison("not a numeric leaf: %s" % render(n))
 
     def boolean(self, n, env):
+        key0 = self.leaf(peel(n, methods=False))
+        if key0 is not None and key0 in env:
+            return bool(env[key0])
         if self.locals is not None:
             n = self.locals.chase(n)
         n = peel(n, methods=False)
+        key0 = self.leaf(n)
+        if key0 is not None and key0 in env:
+            return bool(env[key0])
         k = n["k"]
         if k == "Lit" and n["lk"] == "bool":
             return bool(n["v"])
